@@ -73,6 +73,11 @@ def run_tlapm(ctx):
     info['theorems'] = ['CeilFacts', 'SumExact', 'DivMul', 'GranularSumExact', 'MulLt', 'QuotRemForm',
                         'MapperContiguous']
     ctx.cov['tlapm'] = info
+    ctx.cov['obligations'] = info['obligations']
+    ctx.cov['discharged'] = info['proved']
+    ctx.cov['checker_cmd'] = 'tlapm --threads 4 --stretch 6 --toolbox 0 0 spec/parfor/Chunking_proofs.tla'
+    ctx.cov['trusted_base'] = ['tlapm (TLAPS) and its back-ends Z3/SMT, Zenon, Isabelle', 'TLC for the bounded part',
+                               'the restated definitions equal those of Chunking.tla (text compared by the check)']
     vlib.log('tlapm: %s' % info)
     return info
 
@@ -92,8 +97,7 @@ def run(ctx):
         ctx.assumptions.append('tlapm did not discharge every obligation (%s); the bounded TLC result is the claim'
                                % {k: info.get(k) for k in ('obligations', 'proved', 'failed', 'timeout')})
 
-    ctx.check_model(pc.SPEC, 'MCChunking.tla', 'MC_c17_thorough.cfg' if thorough else 'MC_c17_quick.cfg', WHAT,
-                    workers=4, timeout=2400, label='grid items x chunks x g')
+    pc.model(ctx, 'MCChunking.tla', 'MC_c17_thorough.cfg' if thorough else 'MC_c17_quick.cfg', WHAT, 'grid items x chunks x g')
 
     tr = os.path.join(ctx.work, 'chunking.ndjson')
     tot, _ = ctx.driver(exe_ch, ['--out', tr, '--tier', ctx.tier, '--seed', ctx.seed], WHAT,
